@@ -531,7 +531,9 @@ Section Dispatch.
         | Some id =>
           match face_get (s_faces st) id with
           | Some f => ctl st vs c FaceModule_create_st_Conflicts_with_existing_face (face_props f)
-          | None => Panic    (* the attribute names a face that is not in the table: harness error *)
+          | None =>          (* cannot arise: the attribute is computed from the same face table; kept total *)
+            ctl st vs c FaceModule_create_st_Conflicts_with_existing_face
+                (Build_cargs None (Some id) None None None None None None None None None None None None)
           end
         | None =>
           if (u_scheme u =? 0) || (u_scheme u =? 1) then
